@@ -70,6 +70,18 @@ type pipe struct {
 	expect  byte     // 's' / 'g': with null-keeping options the result is the input in this form; 0: no oracle
 }
 
+// fills reports whether a step of the pipeline makes its result (Generify, Decompose, Dup): a nil
+// slice or nil map of the input is an empty one in the result; every other conversion hands nil on
+// and NEVER turns an empty container into nil or the other way round.
+func (p *pipe) fills() bool {
+	for _, s := range p.steps {
+		if s == "generify" || s == "decompose" || s == "dup" {
+			return true
+		}
+	}
+	return false
+}
+
 func (p *pipe) name() string { return strings.Join(p.steps, "+") }
 
 // model names the pipeline for the driver (alt.Dup is alt.Decompose)
@@ -339,7 +351,7 @@ func treeCase(d *lib.Driver, n *node) error {
 			}
 			// value oracle: null-keeping options, JSON-like data
 			if p.expect != 0 && oc == "00" && !big && !mix {
-				want := n.expected(p.expect == 'g')
+				want := n.expected(p.expect == 'g', p.fills())
 				if pe.resTxt != want {
 					rp2 := cloneMap(rp)
 					rp2["want"], rp2["got"] = want, pe.resTxt
@@ -347,7 +359,7 @@ func treeCase(d *lib.Driver, n *node) error {
 					if p.steps[0] == "genAlter" {
 						changed := false
 						dropped := n.dropNullsBelowSlice(false, &changed)
-						if changed && dropped.expected(p.expect == 'g') == pe.resTxt {
+						if changed && dropped.expected(p.expect == 'g', p.fills()) == pe.resTxt {
 							kid = knownGenAlter
 						}
 					}
@@ -460,6 +472,13 @@ var writers = []writer{
 	{"oj.JSON(sort,indent)", func(v any) string { return oj.JSON(v, &ojg.Options{Sort: true, Indent: 2}) }},
 	{"oj.JSON(sort,omitnil)", func(v any) string { return oj.JSON(v, &ojg.Options{Sort: true, OmitNil: true}) }},
 	{"oj.JSON(sort,omitempty)", func(v any) string { return oj.JSON(v, &ojg.Options{Sort: true, OmitEmpty: true}) }},
+	{"oj.Marshal(sort) [strict: nil slice is null]", func(v any) string {
+		b, err := oj.Marshal(v, &ojg.Options{Sort: true})
+		if err != nil {
+			return "error: " + err.Error()
+		}
+		return string(b)
+	}},
 	{"sen.String(sort)", func(v any) string { return sen.String(v, &ojg.Options{Sort: true}) }},
 	{"pretty.JSON(sort)", func(v any) string { return pretty.JSON(v, &ojg.Options{Sort: true}) }},
 	{"pretty.SEN(sort)", func(v any) string { return pretty.SEN(v, &ojg.Options{Sort: true}) }},
@@ -503,12 +522,18 @@ func renderBigAsNull(v any) string {
 	case gen.Big:
 		return "n"
 	case gen.Array:
+		if t == nil {
+			return "X"
+		}
 		parts := make([]string, len(t))
 		for i, x := range t {
 			parts[i] = renderBigAsNull(nodeAny(x))
 		}
 		return "<" + strings.Join(parts, ",") + ">"
 	case gen.Object:
+		if t == nil {
+			return "Y"
+		}
 		ks := sortedKeysG(t)
 		parts := make([]string, len(ks))
 		for i, k := range ks {
@@ -573,6 +598,30 @@ func parserClause(text string) {
 	if pan != "" {
 		add("violation", "panic:generify", "Generify panicked on oj.Parser output: "+pan, rp, "")
 		return
+	}
+	// the way back: gen.Parser output simplified / altered is exactly what oj.Parser delivers
+	// (empty containers stay empty, nothing becomes nil); a number held as text is a plain string
+	// after Big.Simplify, so texts with such numbers are left to the check above
+	if ga := renderVal(g.v); !strings.Contains(ga, "G") {
+		want := renderVal(s.v)
+		for _, back := range []string{"simplify", "nodeAlter"} {
+			var got string
+			func() {
+				defer func() {
+					if r := recover(); r != nil {
+						got = "panic: " + fmt.Sprint(r)
+					}
+				}()
+				var p gen.Parser
+				n, _ := p.Parse([]byte(text))
+				got = renderVal(step(back, nodeAny(n), nil))
+			}()
+			if got != want {
+				rp2 := cloneMap(rp)
+				rp2["oj_parser"], rp2["gen_parser_"+back] = clip(want), clip(got)
+				add("violation", "parser:"+back, "gen.Parser output converted back differs from oj.Parser output", rp2, "")
+			}
+		}
 	}
 	a, b := renderVal(g.v), renderVal(conv)
 	if a == b {
